@@ -453,6 +453,20 @@ Corrupt_SymbolThenValid ==
          ELSE BadThenEnd(bits \o SymBits(FixedLitLens, FixedLitCW, 257) \o SymBits(FixedDistLens32, FixedDistCW, 30 + which)
                               \o SymBits(FixedLitLens, FixedLitCW, 256), k)
 
+\* ... and in the middle of a stream that simply carries on (more tokens, more blocks): the bad symbol
+\* is then met with plenty of input left, i.e. on a decoder's fast path as well
+Corrupt_SymbolThenCarryOn ==
+  /\ AllowCorrupt /\ Rarely(10) /\ expect = "done" /\ ~zl
+  /\ ph = "tokens" /\ ll = FixedLitLens /\ Len(plain) >= 1 /\ ntok < MaxTokens
+  /\ \E k \in {"len_symbol", "dist_symbol"}, which \in {0, 1} :
+       /\ bits' = IF k = "len_symbol"
+                    THEN bits \o SymBits(FixedLitLens, FixedLitCW, 286 + which) \o SymBits(FixedDistLens32, FixedDistCW, 0)
+                    ELSE bits \o SymBits(FixedLitLens, FixedLitCW, 257) \o SymBits(FixedDistLens32, FixedDistCW, 30 + which)
+       /\ expect' = "rej" /\ why' = k
+       /\ feats' = feats \cup {"corrupt_" \o k \o "_then_carry_on"}
+  /\ ntok' = ntok + 1
+  /\ UNCHANGED <<ph, plain, zl, fin, ll, dl, lcw, dcw, pdl, pdcw, nblk>>
+
 \* HLIT = 30 (287 lengths) or HDIST = 30 (31 lengths) in front of otherwise complete, valid tables,
 \* one literal and the end-of-block code
 Corrupt_TableSizesThenValid ==
@@ -522,7 +536,7 @@ GNext ==
   \/ GenEndBlock
   \/ Finish
   \/ Corrupt_ZlibHeader \/ Corrupt_BlockType3 \/ Corrupt_StoredLen \/ Corrupt_TableSizes \/ Corrupt_Lens \/ Corrupt_RunPastEnd
-  \/ Corrupt_Symbol \/ Corrupt_SymbolThenValid \/ Corrupt_TableSizesThenValid \/ Corrupt_DistBeforeStart \/ Corrupt_UnusedCode \/ Corrupt_Trailer \/ Corrupt_StaleDistCode
+  \/ Corrupt_Symbol \/ Corrupt_SymbolThenValid \/ Corrupt_SymbolThenCarryOn \/ Corrupt_TableSizesThenValid \/ Corrupt_DistBeforeStart \/ Corrupt_UnusedCode \/ Corrupt_Trailer \/ Corrupt_StaleDistCode
 
 \* the stream as bytes
 RECURSIVE PackBytes(_, _)
